@@ -1045,11 +1045,24 @@ impl<'a, 'b> GeneratorState<'a> {
             Some(else_statement) => {
                 let else_label = format!(".else{}", self.local_label_counter_if);
                 self.generate_condition(condition, pos, true, &else_label, false)?;
+                // The flags at the entry of the else branch are the ones of the last evaluated
+                // test only when the condition is a single test: a && or || chain (or a folded
+                // constant) reaches the else label from several places
+                let single_test = !matches!(
+                    condition,
+                    Expr::BinOp {
+                        op: Operation::Land | Operation::Lor,
+                        ..
+                    } | Expr::Not(_)
+                        | Expr::Integer(_)
+                );
                 let saved_flags = self.flags.clone();
                 self.generate_statement(body)?;
                 self.asm(JMP, &ExprType::Label(ifend_label.clone()), 0, false)?;
                 self.label(&else_label)?;
-                self.flags = saved_flags;
+                if single_test {
+                    self.flags = saved_flags;
+                }
                 self.generate_statement(else_statement)?;
                 self.label(&ifend_label)?;
             }
